@@ -1,6 +1,6 @@
 ---------------------------- MODULE TraceErrFlow ----------------------------
 (* Trace validation for ErrFlow.tla: one record per input run through the real pipeline:                *)
-(*   [mode, stage, raised, escaped, render]   stage = where the root-cause exception was raised ("done"  *)
+(*   [mode, stage, raised, escaped, render, reported]   stage = where the root-cause exception was raised ("done"  *)
 (*   when nothing was raised), raised / escaped in {"App", "Foreign", "none"}, render in {"text","fail","none"} *)
 (* Each record must be a behaviour of ErrFlow (with the wrapper table AS CODED); the C07 clauses are    *)
 (* evaluated on it by TLC: records violating them are printed, not rejected - a rejection means the     *)
@@ -10,7 +10,7 @@ EXTENDS MCErrFlow, IOUtils, TLCExt
 Records == JsonDeserialize(IOEnv.TRACE_FILE)
 NR == Len(Records)
 VARIABLE tid
-tvars == <<mode, at, raised, escaped, rendered, op, tid>>
+tvars == <<mode, at, raised, escaped, rendered, op, reported, tid>>
 
 IndexOfStage(s) == IF s = "done" THEN Len(Stages) + 1 ELSE CHOOSE i \in 1..Len(Stages) : Stages[i] = s
 R == Records[tid]
@@ -18,10 +18,12 @@ R == Records[tid]
 ASSUME \A t \in 1..NR : TLCSet(t, FALSE)
 ASSUME TLCSet(NR + 1, 0)
 
-TInit == /\ tid \in 1..NR /\ mode = Records[tid].mode /\ at = 1 /\ raised = "none" /\ escaped = "none" /\ rendered = "none"
+TInit == /\ tid \in 1..NR /\ mode = Records[tid].mode /\ at = 1 /\ raised = "none" /\ escaped = "none" /\ rendered = "none" /\ reported = "none"
          /\ op = [name |-> "init"]
 TPass == at < IndexOfStage(R.stage) /\ Pass /\ tid' = tid
-TRaise == at = IndexOfStage(R.stage) /\ R.raised # "none" /\ Raise(R.raised) /\ escaped' = R.escaped /\ tid' = tid
+TRaise == at = IndexOfStage(R.stage) /\ R.raised # "none" /\ Raise(R.raised) /\ escaped' = R.escaped
+          /\ (R.stage = "parse" => reported' = R.reported)        \* the class the user saw for a failure of the parse stage
+          /\ tid' = tid
 TRender == R.render = "text" /\ Render /\ tid' = tid
 TNext == TPass \/ TRaise \/ TRender
 
